@@ -1,4 +1,82 @@
-(* C04 - placeholder; real theorems follow *)
-From Coq Require Import ZArith Lia.
-Theorem placeholder_C04 : 0 = 0. Proof. reflexivity. Qed.
-Print Assumptions placeholder_C04.
+(* C04 - Secret-key and public-key operations commute; exact failure cases; comparison and sorting.
+   Statements only; proofs in Proofs/KeysProofs.v.  Model: Model/Keys.v - tied to the C code by ./check C04. *)
+From Coq Require Import ZArith List Bool Lia Permutation Sorted.
+Require Import Spec.Params Spec.Field Spec.Curve Spec.Bytes.
+Require Import Model.Base Model.Keys.
+Require Import Proofs.MathFacts Proofs.KeysProofs Proofs.SecpConsts Proofs.Toy.
+Import ListNotations.
+Local Open Scope Z_scope.
+Notation S := secp256k1.
+Notation n := (cn secp256k1).
+
+(* Every operation succeeds exactly under its documented conditions and otherwise returns 0 with an all-zero
+   output: invalid key (0 or >= n), tweak >= n, zero multiplicative tweak, result zero / point at infinity. *)
+Theorem pubkey_create_exact : forall seckey,
+  ec_pubkey_create S seckey =
+    if validb S seckey then [AInt 1; ABytes (pk_obj (pmul S (be_val seckey) (G S)))] else [AInt 0; ABytes pk_obj_zero].
+Proof. exact (pubkey_create_exact S). Qed.
+Print Assumptions pubkey_create_exact.
+Theorem seckey_negate_exact : forall seckey,
+  ec_seckey_negate S seckey =
+    if validb S seckey then [AInt 1; ABytes (sc_to_b32 ((- be_val seckey) mod n))] else [AInt 0; ABytes (zeros 32)].
+Proof. exact (seckey_negate_exact S). Qed.
+Print Assumptions seckey_negate_exact.
+Theorem seckey_tweak_add_exact : forall seckey tweak,
+  let d := be_val seckey in let t := be_val tweak in
+  ec_seckey_tweak_add S seckey tweak =
+    if validb S seckey && (t <? n) && negb ((d + t) mod n =? 0)
+    then [AInt 1; ABytes (sc_to_b32 ((d + t) mod n))] else [AInt 0; ABytes (zeros 32)].
+Proof. exact (seckey_tweak_add_exact S). Qed.
+Print Assumptions seckey_tweak_add_exact.
+Theorem seckey_tweak_mul_exact : forall seckey tweak,
+  let d := be_val seckey in let t := be_val tweak in
+  ec_seckey_tweak_mul S seckey tweak =
+    if validb S seckey && (t <? n) && negb (t mod n =? 0)
+    then [AInt 1; ABytes (sc_to_b32 ((d * (t mod n)) mod n))] else [AInt 0; ABytes (zeros 32)].
+Proof. exact (seckey_tweak_mul_exact S). Qed.
+Print Assumptions seckey_tweak_mul_exact.
+Theorem pubkey_tweak_add_exact : forall obj tweak Q, pk_load obj = Some Q ->
+  let t := be_val tweak in
+  ec_pubkey_tweak_add S obj tweak =
+    if t <? n then match padd S Q (pmul S (t mod n) (G S)) with
+                   | None => [AInt 0; ABytes pk_obj_zero] | R => [AInt 1; ABytes (pk_obj R)] end
+    else [AInt 0; ABytes pk_obj_zero].
+Proof. exact (pubkey_tweak_add_exact S). Qed.
+Print Assumptions pubkey_tweak_add_exact.
+Theorem pubkey_tweak_mul_exact : forall obj tweak Q, pk_load obj = Some Q ->
+  let t := be_val tweak in
+  ec_pubkey_tweak_mul S obj tweak =
+    if (t <? n) && negb (t mod n =? 0) then [AInt 1; ABytes (pk_obj (pmul S (t mod n) Q))] else [AInt 0; ABytes pk_obj_zero].
+Proof. exact (pubkey_tweak_mul_exact S). Qed.
+Print Assumptions pubkey_tweak_mul_exact.
+Theorem pubkey_combine_exact : forall objs, objs <> [] ->
+  ec_pubkey_combine S objs =
+    match psum S (map (fun o => match pk_load o with Some Q => Q | None => None end) objs) with
+    | None => [AInt 0; ABytes pk_obj_zero] | R => [AInt 1; ABytes (pk_obj R)] end.
+Proof. exact (pubkey_combine_exact S). Qed.
+Print Assumptions pubkey_combine_exact.
+
+(* Comparison is the lexicographic order of compressed encodings; sorting returns a sorted permutation, for every length. *)
+Theorem pubkey_cmp_is_lex_of_compressed : forall o1 o2 Q1 Q2, pk_load o1 = Some Q1 -> pk_load o2 = Some Q2 ->
+  ec_pubkey_cmp o1 o2 = [AInt (bytes_cmp (ser33 Q1) (ser33 Q2))].
+Proof. exact pubkey_cmp_exact. Qed.
+Print Assumptions pubkey_cmp_is_lex_of_compressed.
+Theorem sort_sorted_perm : forall l, Permutation (sort_objs l) l /\ Sorted key_le (sort_objs l).
+Proof. intros l. split; [exact (sort_perm l)|exact (sort_sorted l)]. Qed.
+Print Assumptions sort_sorted_perm.
+
+(* [MF] Deriving the public key commutes with negation, additive and multiplicative tweaking. *)
+Theorem create_commutes_with_tweaks :
+  MathFacts S -> forall d t, 0 < d < n -> 0 <= t < n ->
+    pmul S (madd n d t) (G S) = padd S (pmul S d (G S)) (pmul S t (G S)) /\
+    pmul S (mmul n d t) (G S) = pmul S t (pmul S d (G S)) /\
+    pmul S (mneg n d) (G S) = pneg S (pmul S d (G S)).
+Proof.
+  intros MF d t Hd Ht. split; [exact (create_tweak_add_commutes S MF d t Hd Ht)|split;
+    [exact (create_tweak_mul_commutes S MF d t Hd Ht)|exact (create_negate_commutes S MF d Hd)]].
+Qed.
+Print Assumptions create_commutes_with_tweaks.
+
+(* non-vacuity on the toy curve where MathFacts is proved *)
+Example create_commutes_toy : pmul toy (madd 31 5 9) (G toy) = padd toy (pmul toy 5 (G toy)) (pmul toy 9 (G toy)).
+Proof. exact (create_tweak_add_commutes toy toy_MathFacts 5 9 ltac:(simpl; lia) ltac:(simpl; lia)). Qed.
